@@ -20,17 +20,52 @@ Proof. destruct c; reflexivity. Qed.
 Lemma let_cong {A B} (e1 e2 : A) (b1 b2 : A -> B) : e1 = e2 -> (forall k, b1 k = b2 k) -> (let x := e1 in b1 x) = (let x := e2 in b2 x).
 Proof. intros E H. subst e2. apply H. Qed.
 
+Lemma sc_get_set_same f v s : get f (set f v s) = v.
+Proof. unfold get, set; simpl. rewrite N.eqb_refl. reflexivity. Qed.
+Lemma sc_get_set_other f g v s : N.eqb f g = false -> get f (set g v s) = get f s.
+Proof. intro E. unfold get, set; simpl. rewrite E. reflexivity. Qed.
+Lemma sc_set_sort f g a b s : N.ltb g f = true -> set f a (set g b s) = set g b (set f a s).
+Proof.
+  intro H. apply N.ltb_lt in H. unfold set; simpl. f_equal. apply functional_extensionality. intro h.
+  destruct (N.eqb h f) eqn:E1; destruct (N.eqb h g) eqn:E2; try reflexivity.
+  apply N.eqb_eq in E1. apply N.eqb_eq in E2. subst. exfalso. revert H. apply N.lt_irrefl.
+Qed.
+Lemma sc_set_set f a b s : set f a (set f b s) = set f a s.
+Proof.
+  unfold set; simpl. f_equal. apply functional_extensionality. intro h. destruct (N.eqb h f); reflexivity.
+Qed.
+(* canonical form of register reads and of chains of assignments (fields in increasing order, last write wins) *)
+Ltac sc_gs :=
+  repeat first
+    [ rewrite sc_get_set_same
+    | rewrite sc_set_set
+    | match goal with
+      | |- context [get ?f (set ?g ?v ?s)] =>
+          let c := eval vm_compute in (N.eqb f g) in
+          match c with false => rewrite (sc_get_set_other f g v s) by reflexivity end
+      end
+    | match goal with
+      | |- context [set ?f ?a (set ?g ?b ?s)] =>
+          let c := eval vm_compute in (N.ltb g f) in
+          match c with true => rewrite (sc_set_sort f g a b s) by reflexivity end
+      end ].
+
 Ltac is_fun_ty t := lazymatch t with (_ -> _) => idtac | (forall _, _) => idtac end.
 
 (* [unf] unfolds the new helper routines (and nothing else) *)
 Ltac sc_norm unf :=
   repeat first
     [ progress unf
+    | match goal with E : ?c = _ |- context [if ?c then _ else _] => rewrite E; cbv beta iota end
     | rewrite bind_ok
     | rewrite bind_if ];
   cbv beta.
 
-Ltac sc_leaf unf := first [ reflexivity | sc_norm unf; reflexivity | (sc_norm unf; f_equal; reflexivity) ].
+Ltac sc_leaf unf :=
+  first [ reflexivity
+        | sc_norm unf; reflexivity
+        | sc_norm unf; cbv zeta; sc_gs; reflexivity
+        | sc_norm unf; cbv zeta; sc_gs; repeat f_equal; sc_gs; reflexivity ].
 
 Ltac sc unf :=
   cbv beta;
@@ -47,7 +82,8 @@ with sc_body unf L R :=
           lazymatch R with
           | (let y := ?e2 in @?b2 y) =>
               let T := type of e1 in
-              tryif is_fun_ty T
+              let T2 := type of e2 in
+              tryif (is_fun_ty T; unify T T2)
               then (refine (let_cong e1 e2 b1 b2 _ _);
                     [ repeat (apply functional_extensionality; intro); sc unf
                     | let k := fresh "k" in intro k; sc unf ])
@@ -63,18 +99,20 @@ with sc_body unf L R :=
                     | let a := fresh "a" in let s := fresh "s" in intros a s; sc unf ])
               else (progress (sc_norm unf); sc unf)
           | (let y := ?e2 in @?b2 y) => change (L = b2 e2); sc unf
-          | (if ?c then _ else _) => let E := fresh "E" in destruct c eqn:E; sc unf
+          | (if ?c then _ else _) => let E := fresh "E" in destruct c eqn:E; cbv beta iota delta [negb andb orb]; sc unf
           | _ => sc_leaf unf
           end
       | (if ?c then _ else _) =>
-          let E := fresh "E" in
-          (* make the condition visible on the other side first *)
-          try (progress unf; cbv beta);
-          destruct c eqn:E; rewrite ?bind_ok; sc unf
+          first
+            [ progress sc_gs; sc unf      (* conditions in canonical form first: get f (set g ..) simplified *)
+            | let E := fresh "E" in
+              (* make the condition visible on the other side first *)
+              try (progress unf; cbv beta);
+              destruct c eqn:E; cbv beta iota delta [negb andb orb]; rewrite ?bind_ok; sc unf ]
       | _ =>
           lazymatch R with
           | (let y := ?e2 in @?b2 y) => change (L = b2 e2); sc unf
-          | (if ?c then _ else _) => let E := fresh "E" in destruct c eqn:E; sc unf
+          | (if ?c then _ else _) => first [ progress sc_gs; sc unf | let E := fresh "E" in destruct c eqn:E; cbv beta iota delta [negb andb orb]; sc unf ]
           | bind (Ok _ _) _ => rewrite bind_ok; sc unf
           | _ => sc_leaf unf
           end
